@@ -28,6 +28,11 @@ def rewrites(rnd, toks, every_position):
         out.append(('tab', join({i: toks[i][1] + '\t'})))
         out.append(('annotation', join({i: ' @note ' })))
         out.append(('comment-line', join({i: ' @@ a comment\n '})))
+        # a single line break is whitespace like any other: alone, after a trailing tab / space, before an indent
+        out.append(('newline', join({i: '\n'})))
+        out.append(('tab-newline', join({i: '\t\n'})))
+        out.append(('space-tab-newline-indent', join({i: ' \t\n\t '})))
+        out.append(('tab-space-newline', join({i: '\t \n'})))
     if ws:
         out.append(('all-spaces-doubled', join({i: toks[i][1] * 2 for i in ws})))
     for i in (sub if every_position else sub[:1]):
